@@ -1,4 +1,5 @@
 import Proofs.StyleImage
+import Proofs.StyleSites
 /-!
 C12 — style strings mean what git's colour language says they mean.
 
@@ -119,5 +120,40 @@ example : parseAnsi ⟨true, fun _ _ _ => 16⟩ none "hidden bold ul 12 \"#10203
     .ok { ansi := { fg := some (.fixed 12), bg := some (.rgb 16 32 48), bold := true, underline := true,
                     hidden := true } } := by
   decide
+
+/-! ### The same language in every style option
+
+`Generated.StyleSites.styleCallSites` is the inventory (re-extracted on every run) of every call of a
+style / colour parsing function with the expression it passes as `true_color`. -/
+
+/-- Every style option is parsed at the configured colour depth: in the generated inventory each
+option site passes `opt.computed.true_color` (directly or through a local `let`), the only
+exceptions being git's own `color.diff.old/new` (`StyleSites.depthExceptions`, never painted);
+every `--…-style` option of cli.rs has such a site; wrappers forward their parameter and the only
+literal depths in helpers are the four listed in `StyleSites.allowedLiteralHelpers`. -/
+theorem style_options_use_configured_depth :
+    (∀ s ∈ Generated.StyleSites.styleCallSites, s.kind = "option" → s.name ∉ StyleSites.depthExceptions →
+      s.trueColorArg = "opt.computed.true_color") ∧
+    (∀ o ∈ Generated.StyleSites.cliStyleOptions, ∃ s ∈ Generated.StyleSites.styleCallSites,
+      s.kind = "option" ∧ o ∈ s.uses ∧ s.trueColorArg = "opt.computed.true_color") ∧
+    (∀ s ∈ Generated.StyleSites.styleCallSites, StyleSites.literalHelper s = true →
+      (s.inFn, s.callee, s.styleArg) ∈ StyleSites.allowedLiteralHelpers) :=
+  ⟨StyleSites.option_sites_pass_configured_depth, StyleSites.every_cli_style_option_has_a_site,
+   StyleSites.helpers_forward_depth⟩
+
+/-- **A style string means the same thing in every style option**: at any option site of the
+inventory (other than git's own colours), with the configured depth `configured`, the parser is run
+at depth `configured` and returns the declarative reading of the string at that depth — the same
+function of (string, default, depth) for all options. -/
+theorem style_string_means_the_same_in_every_option (s : Generated.StyleSites.Site)
+    (hs : s ∈ Generated.StyleSites.styleCallSites) (hk : s.kind = "option")
+    (hx : s.name ∉ StyleSites.depthExceptions) (configured : Bool) (q : Nat → Nat → Nat → Nat)
+    (d : Option DStyle) (str : List Char) :
+    ∃ depth, StyleSites.evalDepth s.trueColorArg configured = some depth ∧
+      parseAnsi ⟨depth, q⟩ d str = denote ⟨configured, q⟩ d str :=
+  ⟨configured, StyleSites.site_depth s hs hk hx configured, parse_eq_denote ⟨configured, q⟩ d str⟩
+
+example : ∃ s ∈ Generated.StyleSites.styleCallSites, s.name = "grep-line-number-style" ∧ s.kind = "option" ∧
+    s.name ∉ StyleSites.depthExceptions := by decide
 
 end C12
